@@ -369,6 +369,13 @@ pub fn wide_lists(thorough: bool, seed: usize) -> Vec<Vec<Vec<u8>>> {
     for k in 1..=9u8 {
         v.push((0..k).map(|i| vec![b'q', b'a' + i * 3, b'z']).collect());
     }
+    // fan-out boundaries of the state encodings (u8 kind byte: 0xFE = one transition, 0xFF =
+    // dense; 127 = sparse limit; 4-class chunks), at depth 1 and depth 3
+    for k in [10usize, 15, 16, 17, 31, 32, 33, 63, 64, 65, 126, 127, 128, 129, 200, 252, 253, 254, 255, 256] {
+        for prefix in [&b"x"[..], &b"abc"[..]] {
+            v.push((0..k).map(|i| { let mut p = prefix.to_vec(); p.push(i as u8); p }).collect());
+        }
+    }
     // >100 patterns (automatic kind selection switches away from the DFA)
     v.push((0..120u16).map(|i| vec![b'a' + (i % 26) as u8, b'a' + (i / 26) as u8, b'k']).collect());
     let mut rng = crate::gen::Rng(77 + seed as u64);
